@@ -1,4 +1,4 @@
-import BiotiteModel.Proofs.C18Sdf
+import BiotiteModel.Proofs.C18Ctab
 import BiotiteModel.Gen.C18
 /-!
 # C18 — property theorems (MOL/SDF files; tables of the RDKit bridge)
@@ -244,6 +244,89 @@ theorem C18_chg_batching (m : Mol) :
   simp only [← List.append_assoc] at this
   rw [this, pyInt_natRepr]
 
+/-! ## Metadata keys, metadata, records -/
+
+/-- **Key round trip.**  Every key of the grammar (`ValidKey`: a field number or a name is
+present, the name matches `[a-zA-Z0-9][\w.]*`, the external registry part `[\w.-]*`) — any
+combination of field number, name, internal and external registry number — is read back
+unchanged from the line it is serialised to, and also from that line after the `strip()` which
+`Metadata.deserialize` applies first. -/
+theorem C18_key_roundtrip (k : Key) (hk : ValidKey k) :
+    Key.deserialize k.serialize = .ok k ∧ Key.deserialize (strip k.serialize) = .ok k :=
+  key_roundtrip k hk
+
+example : ValidKey ⟨some 12, some "a.b_c".toList, some 7, some "x-1".toList⟩ := by decide
+example : ValidKey ⟨some 0, none, none, some []⟩ ∧ ValidKey ⟨none, some "DT5".toList, none, none⟩ := by decide
+
+/-- **Metadata round trip.**  A metadata block whose keys are pairwise different keys of the
+grammar and whose values are non-empty lists of lines, each line non-empty, without leading or
+trailing blanks and not starting with `>` (`ValueLineOk`; blank, `>`-leading lines are the
+documented exclusions, `$$$$` only matters for record splitting), is read back from its
+serialisation with the same keys, the same multi-line values and the same order. -/
+theorem C18_metadata_roundtrip (md : Metadata) (hmd : MdOk md) (hnd : (md.map (·.1)).Nodup) :
+    Metadata.deserialize (Metadata.serialize md) = .ok md := by
+  have := mdLoop_entries md hmd [] none (by simpa using hnd)
+  simpa [Metadata.deserialize, pend] using this
+
+/-- **Records.**  Joining records with `$$$$` lines and splitting the file again returns the
+same records, in the same order, each under the name that stands (stripped) in its first line —
+provided no line of a record starts with `$$$$` and the names are pairwise different (the file is
+a dict keyed by name). -/
+theorem C18_records (recs : List (List Line)) (hne : recs ≠ [])
+    (hl : ∀ r ∈ recs, ∀ l ∈ r, startsWith delim l = false)
+    (hn : (recs.map recName).Nodup) :
+    splitRecords (joinRecords recs) = .ok (recs.map fun r => (recName r, r)) ∧
+    (∀ f t, recName (f :: t) = strip f) := by
+  refine ⟨?_, fun _ _ => rfl⟩
+  have hany : (joinRecords recs).any (startsWith delim) = true := by
+    cases recs with
+    | nil => exact absurd rfl hne
+    | cons r rs =>
+      have : delim ∈ joinRecords (r :: rs) := by simp [joinRecords]
+      exact List.any_eq_true.mpr ⟨delim, this, by decide⟩
+  unfold splitRecords
+  cases hj : joinRecords recs with
+  | nil => rw [hj] at hany; simp at hany
+  | cons f t =>
+    rw [← hj]
+    simp only [hany, if_true]
+    rw [splitLoop_join recs hl]
+    rw [foldl_dictSet_fresh _ [] (by simpa [List.map_map, Function.comp_def] using hn)]
+    simp [hj]
+
+/-! ## CTAB write → read -/
+
+/-- **CTAB round trip, V2000.**  For a well-formed molecule (`WFMol`: coordinates within the
+column limits after rounding, element symbols as biotite stores them, bonds as a `BondList`
+keeps them) with fewer than 1000 atoms and bonds, reading the V2000 table that was written gives
+back the same atoms in the same order — elements, formal charges (−∞…∞ through `M  CHG`,
+zeros through the atom block), coordinates as the 4-decimal scaled integers `Q.k4` with their
+sign — and the same bonds in the same order, every bond type the bond block can express unchanged
+and the others as the default type (`Mol.rt`, `C18_bond_table`). -/
+theorem C18_ctab_roundtrip_v2000 (m : Mol) (d : Nat) (ls : List Line) (hw : WFMol m)
+    (hn : m.atoms.length < 1000) (hm : m.bonds.length < 1000) (h : writeV2000 m d = .ok ls) :
+    ∃ dc, codeOfBond d = some dc ∧ readCtab ls = .ok (m.rt dc) := by
+  unfold writeV2000 at h
+  split at h
+  · cases h
+  · split at h
+    · cases h
+    · rename_i dc hdc
+      cases h
+      refine ⟨dc, hdc, ?_⟩
+      have hv := (counts_read m.atoms.length m.bonds.length hn hm).2.2
+      have e : [countsLineV2000 m.atoms.length m.bonds.length] ++ m.atoms.map atomLineV2000
+            ++ m.bonds.map (bondLineV2000 dc) ++ chargeLines m ++ [mEnd]
+          = countsLineV2000 m.atoms.length m.bonds.length ::
+            (m.atoms.map atomLineV2000 ++ (m.bonds.map (bondLineV2000 dc) ++ (chargeLines m ++ [mEnd]))) := by
+        simp [List.append_assoc]
+      rw [e]
+      unfold readCtab
+      simp only [hv]
+      have : ("V2000".toList == "V2000".toList) = true := by decide
+      simp only [this, if_true]
+      exact readV2000_write m dc (codeOfBond_lt hdc) hw hn hm
+
 /-! ## Non-vacuity and concrete round trips (evaluated by the kernel)
 
 The general write→read theorems (`C18_ctab_roundtrip`, `C18_key_roundtrip`,
@@ -274,5 +357,25 @@ example : Metadata.deserialize (Metadata.serialize [(⟨none, some "k".toList, n
     = .ok [(⟨none, some "k".toList, none, none⟩, ["l1".toList, "l 2".toList]), (⟨some 3, none, none, some []⟩, ["v".toList])] := by decide
 example : splitRecords (joinRecords [["a".toList, "x".toList], [" b ".toList]])
     = .ok [("a".toList, ["a".toList, "x".toList]), ("b".toList, [" b ".toList])] := by decide
+
+def exMd : Metadata :=
+  [(⟨none, some "k".toList, none, none⟩, ["l1".toList, "l 2 <x>".toList]), (⟨some 3, none, some 7, some []⟩, ["v".toList])]
+example : MdOk exMd ∧ (exMd.map (·.1)).Nodup := by
+  refine ⟨?_, by decide⟩
+  intro kv hkv
+  simp only [exMd, List.mem_cons, List.mem_nil_iff, or_false] at hkv
+  rcases hkv with rfl | rfl
+  · refine ⟨by decide, by decide, ?_⟩
+    intro l hl
+    simp only [List.mem_cons, List.mem_nil_iff, or_false] at hl
+    rcases hl with rfl | rfl <;>
+      exact ⟨by decide, by intro c t h; cases h; decide, by intro c t h; cases h; decide, by decide⟩
+  · refine ⟨by decide, by decide, ?_⟩
+    intro l hl
+    simp only [List.mem_cons, List.mem_nil_iff, or_false] at hl
+    subst hl
+    exact ⟨by decide, by intro c t h; cases h; decide, by intro c t h; cases h; decide, by decide⟩
+example : let recs := [["a".toList, "x".toList], [" b ".toList, "M  END".toList]]
+    recs ≠ [] ∧ (∀ r ∈ recs, ∀ l ∈ r, startsWith delim l = false) ∧ (recs.map recName).Nodup := by decide
 
 end BiotiteModel.C18
